@@ -105,12 +105,12 @@ func c12Bases() []c12Base {
 }
 
 var c12Values = map[string][]string{
-	"monetary": {"", "USD", "USD 10 20", "USD x", "USD -5", "EUR 4", "USD 18446744073709551617", " USD 4", "USD  4", "USD 4.5", "USD 18446744073709551616", "USD 9223372036854775808"},
+	"monetary": {"", "USD", "USD 10 20", "USD x", "USD -5", "EUR 4", "USD 18446744073709551617", " USD 4", "USD  4", "USD 4.5", "USD 18446744073709551616", "USD 9223372036854775808", "US\"D 10", "EU\\R 10", "A\\u0042 10"},
 	"account":  {"", "world", "a:b", "@a", "<kept>", "a b", "zz"},
 	"portion":  {"", "1/0", "0/0", "150%", "3/2", "-1/2", "abc", "50%", "0.5", "1/2/3", "18446744073709551617/36893488147419103234", "0%", "100%", "1 / 3"},
 	"number":   {"", "abc", "-3", "18446744073709551617", "1.5", "0x10", "1_000", "+7", "0", "9223372036854775808", "18446744073709551615", "18446744073709551616", "-9223372036854775809"},
 	"string":   {"", "héllo \"q\"", "k k", "15% of gross", "100%d %s %v", "a\\nb"},
-	"asset":    {"", "usd", "EUR"},
+	"asset":    {"", "usd", "EUR", "A\"B", "A\\"},
 }
 
 func c12Replacements() []func() gen.Expr {
